@@ -4,33 +4,121 @@
     Federation/Planner.v (selectService, planObject, planUnion, key selections, paths),
     Federation/Executor.v (extractKeys as repaired and as it was, the sub-query a service answers, stitching
     result i into target i, deleteKey; [fed_exec] = the whole gateway; [eval_ref] = GraphQL's reference
-    semantics on one combined server).  On every run the model's normalised query, plan and answer are
-    compared with the gateway's, and [eval_ref] with the harness' reference evaluator (Federation/Check06.v).
+    semantics on one combined server; [eval_ref .. true] = the same with __typename reported on every object
+    reached through a union-typed field, which the gateway's answer always carries).  On every run the
+    model's normalised query, plan and answer are compared with the gateway's, [eval_ref] with the harness'
+    reference evaluator, and the premises below are evaluated (Federation/Check06.v).
 
-    FULL STATEMENT of the property (NOT proved as one theorem):
-
-      forall w g pick q, fed_ok g -> valid g q -> covers_unions q ->
-        option_map norm (fed_exec w g pick false true q) =
-        option_map (fun r => norm (add_union_typenames g q r)) (eval_ref w g fuel "Query" 0 q)
-
-    for every world [w] (every resolver a function of object, field and arguments), every federation [g]
-    (partition of the fields over services, federated keys, ServiceSelector), every resolution [pick] of the
-    "some service that has the field" choice; in particular independent of [pick].
-    Proved below: the parts of that refinement named in the property text -- (1) every sub-query sent to a
-    service uses only fields of that service, at every depth, for every choice ([subquery_closed]);
-    (2) normalisation keeps every selection: flattenFragments collects exactly GraphQL's CollectFields, and the
-    repaired mergeSameAlias gives every alias exactly its sub-selections, in order
-    ([normalisation_keeps_every_selection_partial]); (3) stitching hands result i to target i
-    ([stitching_consumes_in_order]); and the two defects of the unrepaired code as refutations with witnesses
-    that were replayed on the implementation (corpus/C06).  Missing for the full theorem: the induction that
-    composes (1)-(3) through the plan tree (a sub-plan's answer for key i is the reference answer of the
-    selections moved to that service, evaluated at the object key i identifies), the union expansion of
-    [flatten], and independence of [pick]; the harness checks those end to end on every run instead. *)
+    MAIN THEOREM ([federation_transparent], proved): for every world of data [w] (every resolver a function of
+    object, field and arguments), every federation [g] (partition of the fields over services, federated keys,
+    ServiceSelector), every resolution [pick] of the "some service that has the field" choice, every query [q]:
+    under the premises, the gateway answers, the reference semantics answers, and the two answers are equal as
+    JSON maps ([jeq]: objects compared by key, arrays in order); [choice_independent]: any two resolutions of
+    the choice give the same answer.  It composes, through the whole plan tree and through union expansion,
+      (P) planner + executor on a normalised query = the combined server on that query (FedPlanSem.root_sem:
+          induction over the planner's recursion; per object: local selections and their lifted sub-plans,
+          the _federation key selection, one sub-plan per other service run for the keys extracted from the
+          batch and merged back object by object (FedBase.exec_batch), union members by __typename);
+      (N) the combined server on the normalised query = the reference semantics on the query as written
+          (NormSem.norm_sem: flattenFragments = CollectFields, mergeSameAlias = grouping by response key,
+          flatten's recursion in lock-step with the reference evaluator's, member by member on unions).
+    Premises -- all decidable, all evaluated on the generated cases ([Premises.premises], component 6 of the
+    correspondence check; the harness reports how many cases of a run satisfy them):
+      [fed_ok g], [fed_ok2 g]   every service that serves a field of a type has _federation on the type and on
+                                what the field returns, serves the federated keys, and can re-fetch the object
+                                by id; nothing returns Query; id/org are scalars (what validateFederatedObjects /
+                                validateFederationKeys enforce; excludes schemas with non-federated objects);
+      [calls_ok g calls]        the data is well typed: object-typed fields yield (lists of) objects of that type,
+                                union-typed fields members of the union, scalar-typed fields scalars;
+      [forallb qwf q]           the query has no directive on a field selection (directives on fragments are
+                                covered) and is shaped as the parser delivers it;
+      [flat_ok g "Query" flat]  the normalised query selects known fields, uses no reserved alias
+                                (_federation, __key; __typename only for __typename), and every union
+                                selection covers every member of the union with a non-empty fragment;
+      [plan_root .. = Some p]   the planner produces a plan (for the implementation: compared on every run).
+    Outside these premises the property is FALSE of the implementation in known ways (DESIGN F4/F5/F17 and the
+    findings in KNOWN_FINDINGS: partial union coverage, same alias with different directives), or not modelled
+    (non-federated objects); the harness' oracle covers those cases end to end.
+    NOT proved: that [plan_root] succeeds whenever the premises on [g] and [flat] hold (it is a premise), and
+    the relation between [eval_ref .. true] and [eval_ref .. false] (removing the __typename entries the query
+    did not ask for), which the harness' comparison implements. *)
 From Coq Require Import List String Bool ZArith Permutation.
 From Thunder Require Import Lib.Json Federation.Merge Federation.Normalize Federation.Planner Federation.Executor
-  Federation.NormalizeProofs Federation.PlannerProofs Federation.ExecutorProofs Federation.FedWitness.
+  Federation.NormalizeProofs Federation.PlannerProofs Federation.ExecutorProofs Federation.FedWitness
+  Federation.FedBase Federation.FedSem Federation.FedPlanSem Federation.Premises Federation.NormSem
+  Federation.Transparency Federation.Check06.
 Import ListNotations.
 Open Scope string_scope.
+
+(** MAIN: the gateway and the reference semantics both answer, with the same JSON map. *)
+Theorem federation_transparent :
+  forall w g pick q flat p,
+    (forall l s, pick l = Some s -> In s l) ->
+    fed_ok g = true -> fed_ok2 g = true ->
+    world_ok w g -> (forall ty id f ak, scalars_ok (w_value w ty id f ak)) ->
+    (forall ty id f ak owners, find_gfield g ty f = Some (RScalar, owners) -> sval (w_value w ty id f ak)) ->
+    forallb qwf q = true ->
+    flatten (2 * depth_list q + 4) false g (RObj "Query") (Some q) = Some (Some flat) ->
+    flat_ok g "Query" flat = true ->
+    plan_root g pick (2 * depth_list q + 4) flat = Some p ->
+    exists a r, fed_exec w g pick false true q = Some a /\
+                eval_ref w g true (2 * depth_list q + 4) "Query" 0%Z q = Some r /\ jeq a r.
+Proof. exact Transparency.fed_transparent. Qed.
+Print Assumptions federation_transparent.
+
+(** ... with all premises as the one boolean the correspondence check evaluates on every generated case
+    (there: [pick = first_owner], the table of resolver results of the case as the world). *)
+Theorem federation_transparent_on_case :
+  forall g calls orgs q,
+    premises g calls first_owner q = true ->
+    exists a r, fed_exec (world_of calls orgs) g first_owner false true q = Some a /\
+                eval_ref (world_of calls orgs) g true (2 * depth_list q + 4) "Query" 0%Z q = Some r /\ jeq a r.
+Proof.
+  intros g calls orgs q H. apply Transparency.fed_transparent_on_case; [|exact H].
+  intros [|x t] s Hs; simpl in Hs; inversion Hs; left; reflexivity.
+Qed.
+Print Assumptions federation_transparent_on_case.
+
+(** ... and the answer does not depend on which of several services that serve a field is chosen. *)
+Theorem choice_independent :
+  forall w g pick1 pick2 q flat p1 p2,
+    (forall l s, pick1 l = Some s -> In s l) -> (forall l s, pick2 l = Some s -> In s l) ->
+    fed_ok g = true -> fed_ok2 g = true ->
+    world_ok w g -> (forall ty id f ak, scalars_ok (w_value w ty id f ak)) ->
+    (forall ty id f ak owners, find_gfield g ty f = Some (RScalar, owners) -> sval (w_value w ty id f ak)) ->
+    forallb qwf q = true ->
+    flatten (2 * depth_list q + 4) false g (RObj "Query") (Some q) = Some (Some flat) ->
+    flat_ok g "Query" flat = true ->
+    plan_root g pick1 (2 * depth_list q + 4) flat = Some p1 ->
+    plan_root g pick2 (2 * depth_list q + 4) flat = Some p2 ->
+    exists a1 a2, fed_exec w g pick1 false true q = Some a1 /\ fed_exec w g pick2 false true q = Some a2 /\ jeq a1 a2.
+Proof. exact Transparency.fed_choice_independent. Qed.
+Print Assumptions choice_independent.
+
+(** The two halves of the main theorem.  (P): planner + executor on a normalised query answer like the
+    combined server asked that query with __typename on every union selection ([simv]: equal as maps once the
+    _federation keys are deleted). *)
+Theorem plan_and_stitch_is_combined_server :
+  forall w g pick,
+    (forall l s, pick l = Some s -> In s l) -> fed_ok g = true -> fed_ok2 g = true ->
+    world_ok w g -> (forall ty id f ak, scalars_ok (w_value w ty id f ak)) ->
+    forall fuel flat p,
+      plan_root g pick fuel flat = Some p -> flat_ok g "Query" flat = true ->
+      exists L, exec_plan w g true p None = Some [JObj L] /\
+                simv (JObj L) (eval_obj w (keyed g) "Query" 0%Z (map annot flat)).
+Proof. exact FedPlanSem.root_sem. Qed.
+Print Assumptions plan_and_stitch_is_combined_server.
+
+(** (N): normalisation preserves the meaning of the query, at every object type and depth. *)
+Theorem normalisation_preserves_meaning :
+  forall w g,
+    world_ok w g ->
+    (forall ty id f ak owners, find_gfield g ty f = Some (RScalar, owners) -> sval (w_value w ty id f ak)) ->
+    forall fuel ty id sels flat,
+      flatten fuel false g (RObj ty) (Some sels) = Some (Some flat) -> Forall qwfP sels -> flat_ok g ty flat = true ->
+      exists r, eval_ref w g true fuel ty id sels = Some r /\ jeq (eval_obj w (keyed g) ty id (map annot flat)) r.
+Proof. exact NormSem.norm_sem. Qed.
+Print Assumptions normalisation_preserves_meaning.
 
 (** (1) Each sub-query sent to a service only uses fields that service exposes.
     [fed_ok g] is decidable and evaluated on every generated federation: a service serving a field of a type
@@ -46,15 +134,16 @@ Theorem subquery_closed :
 Proof. exact PlannerProofs.subquery_closed. Qed.
 Print Assumptions subquery_closed.
 
-(** (2) Normalisation keeps every selection (one level of [flatten]; see the header for what is missing).
+(** (2) Normalisation keeps every selection, one level of [flatten], directives on fields included
+    ([normalisation_preserves_meaning] is the statement for whole queries).
     a: flattenFragments, after the @skip/@include filter planObject applies, is exactly CollectFields;
     b: mergeSameAlias (as repaired) gives each alias exactly the sub-selections the query gave it, in order. *)
-Theorem normalisation_keeps_every_selection_partial :
+Theorem normalisation_keeps_every_selection :
   (forall g obj l flat, flatten_frags g obj l = Some flat ->
      filter incl_node flat = collect_all g obj l) /\
   (forall l r, Forall hs_ok l -> merge_same_alias false l = Some r -> forall a, subs_of a r = subs_of a l).
 Proof. split; [exact NormalizeProofs.flatten_frags_collects | exact NormalizeProofs.merge_same_alias_keeps_subs]. Qed.
-Print Assumptions normalisation_keeps_every_selection_partial.
+Print Assumptions normalisation_keeps_every_selection.
 
 (** ... which the code before the repair violated (DESIGN F15). *)
 Theorem merge_same_alias_original_refuted :
